@@ -147,27 +147,32 @@ def deferred_kill_wiring(chk: Check) -> None:
     chk.ob('PROV-deferred-kill', kill, ok_ret, 'the deferred branch returns the installed action itself', node=rets[0].ast if rets else setc[0],
            kind='returns-action')
 
+    from ..rules import dispatch_sites, resolve_callable_ref
     cia = prog.func('processes.Process._create_interrupt_action')
-    dk = cia.nested.get('do_kill')
-    chk.need(dk is not None, 'do_kill closure not found in _create_interrupt_action')
-    # branch for KillInterruption builds CancellableAction(do_kill, cookie=exception)
-    kb = [n for n in ast.walk(cia.node) if isinstance(n, ast.If) and 'KillInterruption' in norm(n.test)]
-    act = None
-    for b in kb:
-        for c in [x for s in b.body for x in ast.walk(s) if isinstance(x, ast.Call)]:
-            if last_name(c) == 'CancellableAction':
-                act = c
     exc_param = cia.params[1] if len(cia.params) > 1 else 'exception'
-    ok_act = act is not None and act.args and norm(act.args[0]) == 'do_kill' and any(
-        k.arg == 'cookie' and norm(k.value) == exc_param for k in act.keywords)
-    chk.ob('PROV-deferred-kill', cia, ok_act, 'a KillInterruption yields CancellableAction(do_kill, cookie=<that interruption>)',
+    ffc = chk.ctx.facts.analyse(cia)
+    act_sites = dispatch_sites(ffc, lambda c: last_name(c) == 'CancellableAction')
+    kill_sites = [(n, c) for n, c, pins in act_sites if any(v.endswith('KillInterruption') for v in pins.get(f'isinstance:{exc_param}', set()))]
+    act = kill_sites[0][1] if len(kill_sites) == 1 else None
+    targets = resolve_callable_ref(chk.ctx, cia, act.args[0]) if act is not None and act.args else []
+    ok_act = act is not None and len(targets) == 1 and any(k.arg == 'cookie' and norm(k.value) == exc_param for k in act.keywords)
+    chk.ob('PROV-deferred-kill', cia, ok_act, 'a KillInterruption yields CancellableAction(<kill action>, cookie=<that interruption>)',
            node=act or cia.node, kind='action-for-kill-interruption')
+    chk.need(len(targets) == 1, 'the action run for a KillInterruption could not be resolved to one function')
+    dk, bound = targets[0]
+    dk = prog.view(dk)
+    # how the action names the interruption: the closure variable itself, or the parameter partial() bound it to
+    int_names = {exc_param} if dk.parent is not None else set()
+    dk_params = dk.params[1:] if dk.cls is not None else dk.params
+    for p_, a_ in zip(dk_params, bound):
+        if norm(a_) == exc_param:
+            int_names.add(p_)
     # do_kill: KILLED with msg=exception.msg, returns True, resets _killing in finally
     built = [c for c in calls_in_func(dk) if chk.ctx.calls.state_ctor_label(dk, c) is not None]
     lbl_ok = len(built) == 1 and repr(chk.ctx.calls.state_ctor_label(dk, built[0])) == 'ProcessState.KILLED'
     chk.ob('PROV-deferred-kill', dk, lbl_ok, 'the deferred kill enters a state with constant label KILLED', node=built[0] if built else dk.node,
            kind='do-kill:label-killed')
-    msg_ok = lbl_ok and any(k.arg == 'msg' and norm(k.value) == f'{exc_param}.msg' for k in built[0].keywords)
+    msg_ok = lbl_ok and any(k.arg == 'msg' and norm(k.value) in {f'{n_}.msg' for n_ in int_names} for k in built[0].keywords)
     chk.ob('FWD-kill-text', dk, msg_ok, 'the deferred kill carries the message of the KillInterruption', node=built[0] if built else dk.node,
            kind='do-kill:msg')
     tr = calls_in_func(dk, 'transition_to')
@@ -271,7 +276,7 @@ def int_alias_discipline(chk: Check) -> None:
             if f.qualname == 'processes.Process._set_interrupt_action_from_exception':
                 continue
             sites.append((f, c))
-    chk.floor('INT-alias', len(sites), 7)
+    chk.floor('INT-alias', len(sites), 3)
     for f, c in sites:
         ff = chk.ctx.facts.analyse(f)
         cfg = ff.cfg
